@@ -99,14 +99,30 @@ func distinctKey(item reflect.Value) interface{} {
 // zero has no sign and strings keep bytes that are not valid
 // UTF-8 (JSON would replace them).
 func distinctText(v interface{}) string {
-	switch v := v.(type) {
-	case map[string]interface{}:
-		keys := make([]string, 0, len(v))
-		for key := range v {
-			keys = append(keys, key)
+	var sb strings.Builder
+	writeDistinctText(&sb, reflect.ValueOf(v))
+	return sb.String()
+}
+
+func writeDistinctText(sb *strings.Builder, v reflect.Value) {
+
+	// Arrays and objects are written the same way whatever
+	// their Go type is (library functions return []string and
+	// []float64, for example, and integers of type int).
+	for v.IsValid() && (v.Kind() == reflect.Interface || v.Kind() == reflect.Ptr) && !v.IsNil() &&
+		!v.Type().Implements(jtypes.TypeCallable) {
+		v = v.Elem()
+	}
+
+	switch {
+	case !v.IsValid():
+		sb.WriteString("null")
+	case v.Kind() == reflect.Map && v.Type().Key().Kind() == reflect.String:
+		keys := make([]string, 0, v.Len())
+		for _, key := range v.MapKeys() {
+			keys = append(keys, key.String())
 		}
 		sort.Strings(keys)
-		var sb strings.Builder
 		sb.WriteByte('{')
 		for i, key := range keys {
 			if i > 0 {
@@ -114,33 +130,33 @@ func distinctText(v interface{}) string {
 			}
 			sb.WriteString(strconv.Quote(key))
 			sb.WriteByte(':')
-			sb.WriteString(distinctText(v[key]))
+			writeDistinctText(sb, v.MapIndex(reflect.ValueOf(key).Convert(v.Type().Key())))
 		}
 		sb.WriteByte('}')
-		return sb.String()
-	case []interface{}:
-		var sb strings.Builder
+	case (v.Kind() == reflect.Slice || v.Kind() == reflect.Array) && v.Type().Elem().Kind() != reflect.Uint8:
 		sb.WriteByte('[')
-		for i, value := range v {
+		for i, N := 0, v.Len(); i < N; i++ {
 			if i > 0 {
 				sb.WriteByte(',')
 			}
-			sb.WriteString(distinctText(value))
+			writeDistinctText(sb, v.Index(i))
 		}
 		sb.WriteByte(']')
-		return sb.String()
-	case string:
-		return strconv.Quote(v)
-	case float64:
+	case v.Kind() == reflect.String:
+		sb.WriteString(strconv.Quote(v.String()))
+	case jtypes.IsNumber(v):
 		// -0 + 0 is +0.
-		return strconv.FormatFloat(v+0, 'g', -1, 64)
+		n, _ := jtypes.AsNumber(v)
+		sb.WriteString(strconv.FormatFloat(n+0, 'g', -1, 64))
+	case v.CanInterface():
+		s, err := String(v.Interface())
+		if err != nil {
+			s = fmt.Sprint(v.Interface())
+		}
+		sb.WriteString(s)
+	default:
+		sb.WriteString("null")
 	}
-
-	s, err := String(v)
-	if err != nil {
-		s = fmt.Sprint(v)
-	}
-	return s
 }
 
 // Append (golint)
